@@ -1,9 +1,10 @@
 import ApdVerif.Spec.Agrees
+import ApdVerif.Lemmas.C09Lemmas
 /-!
 # C09 — Quantize and RoundToIntegral produce the requested exponent, correctly rounded
 -/
 namespace Apd.Props
-open Apd Apd.Oracle
+open Apd Apd.Oracle Apd.C09L
 
 /-- `x / 10^e` rounded to an integer in the context's mode: `(coefficient, digits were lost)` -/
 def quantSpec (c : Ctx) (x : Dec) (e : Int) : Nat × Bool := roundAt c.mode x.neg x.coeff 1 x.exp e
@@ -12,6 +13,75 @@ def quantSpec (c : Ctx) (x : Dec) (e : Int) : Nat × Bool := roundAt c.mode x.ne
 magnitude of `x` relative to `10^e`; Inexact/Rounded iff digits were lost; never Underflow or
 Overflow; InvalidOperation + NaN exactly when the coefficient needs more than Precision digits or
 `e` (or the result's adjusted exponent) is outside the context's exponent range. -/
+theorem quantizeOp_eq (c : Ctx) (x : Dec) (hx : x.form = .finite) (e : Int) :
+    quantizeOp c x e =
+      if e < c.emin - (c.prec : Int) + 1 then invalidNaN c
+      else if (ndigits (quantizeCore c x e).1.coeff : Int) > (c.prec : Int) ∨ e > c.emax then invalidNaN c
+      else if ((quantizeCore c x e).2 ||| (ctxRound c (quantizeCore c x e).1).2).overflow = true ∨
+              ((quantizeCore c x e).2 ||| (ctxRound c (quantizeCore c x e).1).2).underflow = true
+        then invalidNaN c
+      else finish c ((ctxRound c (quantizeCore c x e).1).1,
+                     (quantizeCore c x e).2 ||| (ctxRound c (quantizeCore c x e).1).2) := by
+  have hnan : shouldSetAsNaN x none = false := by simp [shouldSetAsNaN, Dec.isNaN, hx]
+  have hinf : (x.form == Form.infinite) = false := by simp [hx]
+  unfold quantizeOp
+  simp only [hnan, hinf, Bool.false_or, Bool.or_eq_true, decide_eq_true_eq]
+  rw [if_neg (by simp)]
+
+theorem quantize_main (c : Ctx) (hc : c.WF) (x : Dec) (hx : x.form = .finite) (e : Int)
+    (he : -100000 ≤ e ∧ e ≤ 100000) (hgap : x.exp - e ≤ 100000)
+    (hgap2 : (ndigits x.coeff : Int) < e - x.exp ∨ e - x.exp < 100000 ∨
+      (e - x.exp = 100000 ∧ ndigits (quantSpec c x e).1 ≤ ndigits (x.coeff / 10 ^ 100000))) :
+    if e < c.emin - (c.prec : Int) + 1 ∨ e > c.emax ∨ ndigits (quantSpec c x e).1 > c.prec ∨
+        ((quantSpec c x e).1 ≠ 0 ∧ e + (ndigits (quantSpec c x e).1 : Int) - 1 > c.emax) then
+      quantizeOp c x e = invalidNaN c
+    else
+      (quantizeOp c x e).d = { form := .finite, neg := x.neg, exp := e, coeff := (quantSpec c x e).1 } ∧
+      (quantizeOp c x e).fl.inexact = (quantSpec c x e).2 ∧
+      ((quantSpec c x e).2 = true → (quantizeOp c x e).fl.rounded = true) ∧
+      (quantizeOp c x e).fl.underflow = false ∧ (quantizeOp c x e).fl.overflow = false ∧
+      (quantizeOp c x e).fl.invalidOp = false ∧
+      (quantizeOp c x e).fl.sysOverflow = false ∧ (quantizeOp c x e).fl.sysUnderflow = false := by
+  have hc' := hc
+  obtain ⟨c1, c2, c3, c4, c5⟩ := hc'
+  rw [quantizeOp_eq c x hx e]
+  by_cases h1 : e < c.emin - (c.prec : Int) + 1
+  · rw [if_pos (Or.inl h1), if_pos h1]
+  · have key := quantizeCore_spec c x hx e (by omega) c3 hgap hgap2
+    change QGood x e (quantSpec c x e) (quantizeCore c x e) ∨
+      ((ndigits (quantSpec c x e).1 : Int) - 1 > c.emax ∧
+        (ndigits (quantizeCore c x e).1.coeff : Int) > c.emax) at key
+    generalize quantizeCore c x e = q at key ⊢
+    generalize quantSpec c x e = R at key ⊢
+    rw [if_neg h1]
+    rcases key with ⟨g1, g2, g3, g4, g5, g6, g7, g8, g9⟩ | ⟨b1, b2⟩
+    · obtain ⟨q1, q2⟩ := q
+      simp only [] at g1 g2 g3 g4 g5 g6 g7 g8 g9 ⊢
+      subst g1
+      simp only []
+      by_cases h2 : ndigits R.1 > c.prec ∨ e > c.emax
+      · have hcond : e < c.emin - (c.prec : Int) + 1 ∨ e > c.emax ∨ ndigits R.1 > c.prec ∨
+            (R.1 ≠ 0 ∧ e + (ndigits R.1 : Int) - 1 > c.emax) := by omega
+        rw [if_pos hcond, if_pos (by omega)]
+      · have fit := ctxRound_fit c hc { x with coeff := R.1, exp := e } hx (by simp only []; omega)
+          (by simp only []; omega) (by simp only []; omega) (by simp only []; omega)
+        simp only [] at fit
+        by_cases h3 : R.1 ≠ 0 ∧ e + (ndigits R.1 : Int) - 1 > c.emax
+        · have hcond : e < c.emin - (c.prec : Int) + 1 ∨ e > c.emax ∨ ndigits R.1 > c.prec ∨
+              (R.1 ≠ 0 ∧ e + (ndigits R.1 : Int) - 1 > c.emax) := by omega
+          rw [if_pos h3] at fit
+          rw [if_pos hcond, if_neg (by omega), if_pos (Or.inl (by simp [fit]))]
+        · have hcond : ¬ (e < c.emin - (c.prec : Int) + 1 ∨ e > c.emax ∨ ndigits R.1 > c.prec ∨
+              (R.1 ≠ 0 ∧ e + (ndigits R.1 : Int) - 1 > c.emax)) := by omega
+          rw [if_neg h3] at fit
+          obtain ⟨t1, t2, t3, t4, t5, t6, t7⟩ := fit
+          rw [if_neg hcond, if_neg (by omega), if_neg (by simp [g4, g5, t3, t4]), t1]
+          simp only [hx] at t2 t3 t4 t5 t6 t7
+          simp [finish, hx, g2, g4, g5, g6, g7, g8, t2, t3, t4, t5, t6, t7]
+          exact fun h => Or.inl (g3 h)
+    · rw [if_pos (Or.inr (Or.inr (Or.inl (by omega)))), if_pos (Or.inl (by omega))]
+
+/- ORIGINAL STATEMENT (false, see the counterexamples below and in the report):
 theorem C09_quantize (c : Ctx) (hc : c.WF) (x : Dec) (hx : x.form = .finite) (hxw : x.WF) (e : Int)
     (he : -100000 ≤ e ∧ e ≤ 100000) (hgap : x.exp - e ≤ 100000) :
     let o := quantizeOp c x e
@@ -23,25 +93,129 @@ theorem C09_quantize (c : Ctx) (hc : c.WF) (x : Dec) (hx : x.form = .finite) (hx
       o.d = { form := .finite, neg := x.neg, exp := e, coeff := r.1 } ∧
       o.fl.inexact = r.2 ∧ (r.2 = true → o.fl.rounded = true) ∧
       o.fl.underflow = false ∧ o.fl.overflow = false ∧ o.fl.invalidOp = false ∧
+      o.fl.sysOverflow = false ∧ o.fl.sysUnderflow = false
+Counterexamples (checked with #eval, see scratch/Cex.lean):
+  c = {prec := 5, emax := 100000, emin := -100000, mode := halfUp}
+  (a) x = (10^100001 - 1)·10^-100000, e = 0: the specification gives 10·10^0 (2 digits), the model
+      (Round's `setExponent(…, -100000, 100001)`) raises SystemOverflow and Quantize returns NaN/InvalidOperation.
+  (b) x = 10^149999·10^-100000, e = 50000: the specification gives 0·10^50000, the model's Round hits
+      `diff > MaxExponent` and Quantize returns NaN/InvalidOperation.
+The variant below adds the hypothesis `hgap2`: the number of discarded digits `e - x.exp` is below 100000,
+or all digits are discarded, or it is exactly 100000 and rounding up does not carry into a new digit. -/
+theorem C09_quantize_partial (c : Ctx) (hc : c.WF) (x : Dec) (hx : x.form = .finite) (hxw : x.WF) (e : Int)
+    (he : -100000 ≤ e ∧ e ≤ 100000) (hgap : x.exp - e ≤ 100000)
+    (hgap2 : (ndigits x.coeff : Int) < e - x.exp ∨ e - x.exp < 100000 ∨
+      (e - x.exp = 100000 ∧ ndigits (quantSpec c x e).1 ≤ ndigits (x.coeff / 10 ^ 100000))) :
+    let o := quantizeOp c x e
+    let r := quantSpec c x e
+    let etiny : Int := c.emin - (c.prec : Int) + 1
+    if e < etiny ∨ e > c.emax ∨ ndigits r.1 > c.prec ∨ (r.1 ≠ 0 ∧ e + (ndigits r.1 : Int) - 1 > c.emax) then
+      o.d = decNaN ∧ o.fl = Cond.cInvalidOp ∧ o.err = goError c.traps Cond.cInvalidOp
+    else
+      o.d = { form := .finite, neg := x.neg, exp := e, coeff := r.1 } ∧
+      o.fl.inexact = r.2 ∧ (r.2 = true → o.fl.rounded = true) ∧
+      o.fl.underflow = false ∧ o.fl.overflow = false ∧ o.fl.invalidOp = false ∧
       o.fl.sysOverflow = false ∧ o.fl.sysUnderflow = false := by
-  sorry
+  intro o r etiny
+  have main := quantize_main c hc x hx e he hgap hgap2
+  by_cases hcond : e < etiny ∨ e > c.emax ∨ ndigits r.1 > c.prec ∨ (r.1 ≠ 0 ∧ e + (ndigits r.1 : Int) - 1 > c.emax)
+  · rw [if_pos hcond]
+    rw [if_pos hcond] at main
+    simp only [o, main, invalidNaN, and_self]
+  · rw [if_neg hcond]
+    rw [if_neg hcond] at main
+    exact main
 
-/-- RoundToIntegralExact = Quantize to exponent 0 without the digit limit -/
+/-- the complement of `hgap2`: when at least 100000 digits are discarded (and not all of them), with a
+carry in the boundary case of exactly 100000, the model's Quantize hits a system limit inside `Round` and
+returns NaN with InvalidOperation — whatever the specification says. -/
+theorem C09_quantize_syslimit (c : Ctx) (hc : c.WF) (x : Dec) (hx : x.form = .finite) (e : Int)
+    (hk : e - x.exp ≥ 100000) (hnd : e - x.exp ≤ (ndigits x.coeff : Int))
+    (hcarry : e - x.exp = 100000 → ndigits (quantSpec c x e).1 > ndigits (x.coeff / 10 ^ 100000)) :
+    let o := quantizeOp c x e
+    o.d = decNaN ∧ o.fl = Cond.cInvalidOp ∧ o.err = goError c.traps Cond.cInvalidOp := by
+  intro o
+  obtain ⟨c1, c2, c3, c4, c5⟩ := hc
+  have key := quantizeCore_sys c x e hk hnd hcarry
+  have ho : o = invalidNaN c := by
+    simp only [o]
+    rw [quantizeOp_eq c x hx e]
+    by_cases h1 : e < c.emin - (c.prec : Int) + 1
+    · rw [if_pos h1]
+    · rw [if_neg h1]
+      by_cases h2 : (ndigits (quantizeCore c x e).1.coeff : Int) > (c.prec : Int) ∨ e > c.emax
+      · rw [if_pos h2]
+      · rw [if_neg h2]
+        rcases key with ⟨_, k1⟩ | ⟨k1, _⟩
+        · exfalso; omega
+        · rw [if_pos (Or.inl (by simp [k1]))]
+  rw [ho]
+  simp [invalidNaN]
+
+/- ORIGINAL STATEMENT (false: counterexample (a) above, x = (10^100001 - 1)·10^-100000 — the model
+   returns coefficient 1 with SystemOverflow instead of 10):
 theorem C09_rtie (c : Ctx) (hc : c.WF) (x : Dec) (hx : x.form = .finite) (hxw : x.WF)
     (hfit : (ndigits (quantSpec c x 0).1 : Int) - 1 ≤ c.emax) :
     let o := roundToIntegralExactOp c x
     let r := quantSpec c x 0
     o.d = { form := .finite, neg := x.neg, exp := 0, coeff := r.1 } ∧
     o.fl.inexact = r.2 ∧ (r.2 = true → o.fl.rounded = true) ∧
-    o.fl.underflow = false ∧ o.fl.overflow = false ∧ o.fl.invalidOp = false := by
-  sorry
+    o.fl.underflow = false ∧ o.fl.overflow = false ∧ o.fl.invalidOp = false -/
+theorem toIntegralSpecials_finite (c : Ctx) (x : Dec) (hx : x.form = .finite) :
+    toIntegralSpecials c x = none := by
+  simp [toIntegralSpecials, shouldSetAsNaN, Dec.isNaN, hx]
+
+/-- RoundToIntegralExact = Quantize to exponent 0 without the digit limit -/
+theorem C09_rtie_partial (c : Ctx) (hc : c.WF) (x : Dec) (hx : x.form = .finite) (hxw : x.WF)
+    (hfit : (ndigits (quantSpec c x 0).1 : Int) - 1 ≤ c.emax)
+    (hgap2 : (ndigits x.coeff : Int) < -x.exp ∨ -100000 < x.exp ∨
+      (x.exp = -100000 ∧ ndigits (quantSpec c x 0).1 ≤ ndigits (x.coeff / 10 ^ 100000))) :
+    let o := roundToIntegralExactOp c x
+    let r := quantSpec c x 0
+    o.d = { form := .finite, neg := x.neg, exp := 0, coeff := r.1 } ∧
+    o.fl.inexact = r.2 ∧ (r.2 = true → o.fl.rounded = true) ∧
+    o.fl.underflow = false ∧ o.fl.overflow = false ∧ o.fl.invalidOp = false ∧
+    o.fl.sysOverflow = false ∧ o.fl.sysUnderflow = false := by
+  intro o r
+  obtain ⟨c1, c2, c3, c4, c5⟩ := hc
+  obtain ⟨w1, w2, w3, w4⟩ := hxw
+  have key := quantizeCore_spec c x hx 0 (by omega) c3 (by omega) (by
+    rcases hgap2 with h | h | h
+    · left; omega
+    · right; left; omega
+    · right; right; exact ⟨by omega, h.2⟩)
+  change QGood x 0 r (quantizeCore c x 0) ∨
+      ((ndigits r.1 : Int) - 1 > c.emax ∧ (ndigits (quantizeCore c x 0).1.coeff : Int) > c.emax) at key
+  have ho : o = finish c (quantizeCore c x 0) := by
+    simp only [o, roundToIntegralExactOp, toIntegralSpecials_finite c x hx]
+  rcases key with ⟨g1, g2, g3, g4, g5, g6, g7, g8, g9⟩ | ⟨b1, b2⟩
+  · rw [ho]
+    simp only [finish, g1, g2, g4, g5, g6, g7, g8, hx, true_and, and_true]
+    exact g3
+  · exfalso
+    change (ndigits r.1 : Int) - 1 ≤ c.emax at hfit
+    omega
+
+/-- the complement of `hgap2` for RoundToIntegralExact: with `x.exp = -100000` and a carry into a new
+digit, the model reports a system-limit error (the destination is then unspecified). -/
+theorem C09_rtie_syslimit (c : Ctx) (x : Dec) (hx : x.form = .finite)
+    (hexp : x.exp = -100000) (hnd : 100000 ≤ ndigits x.coeff)
+    (hcarry : ndigits (quantSpec c x 0).1 > ndigits (x.coeff / 10 ^ 100000)) :
+    (roundToIntegralExactOp c x).err = .sys := by
+  have key := quantizeCore_sys c x 0 (by omega) (by omega) (fun _ => hcarry)
+  simp only [roundToIntegralExactOp, toIntegralSpecials_finite c x hx, finish]
+  rcases key with ⟨k1, _⟩ | ⟨_, k2⟩
+  · exfalso; omega
+  · simp [goError, k2]
 
 /-- RoundToIntegralValue: the same value, reporting neither Inexact nor Rounded -/
 theorem C09_rtiv (c : Ctx) (hc : c.WF) (x : Dec) (hx : x.form = .finite) (hxw : x.WF)
     (hfit : (ndigits (quantSpec c x 0).1 : Int) - 1 ≤ c.emax) :
     let o := roundToIntegralValueOp c x
     o.d = (roundToIntegralExactOp c x).d ∧ o.fl.inexact = false ∧ o.fl.rounded = false := by
-  sorry
+  intro o
+  simp only [o, roundToIntegralValueOp, roundToIntegralExactOp, toIntegralSpecials_finite c x hx, finish,
+    and_self]
 
 /-- `⌈x⌉` and `⌊x⌋` of a finite decimal with `exp ≤ 0`, as integers -/
 def ceilInt (x : Dec) : Int :=
@@ -60,19 +234,59 @@ theorem C09_ceil (c : Ctx) (hc : c.WF) (x : Dec) (hx : x.form = .finite) (hexp :
     let o := ceilOp c x
     o.err = .none ∧ o.fl = {} ∧ o.d.form = .finite ∧ o.d.exp = 0 ∧
     (if o.d.neg then -(o.d.coeff : Int) else (o.d.coeff : Int)) = ceilInt x := by
-  sorry
+  intro o
+  obtain ⟨m1, m2⟩ := modf_spec x hx hexp
+  have ho : o = if (modf x).2.sign > 0 then addOp c (modf x).1 decOne false else { d := (modf x).1 } := by
+    simp only [o, ceilOp, toIntegralSpecials_finite c x hx]
+  rw [ho, m1, m2]
+  unfold ceilInt at hfit ⊢
+  simp only [] at hfit ⊢
+  generalize 10 ^ (-x.exp).toNat = p at *
+  by_cases hm : x.coeff % p = 0
+  · simp only [hm, if_true] at hfit ⊢
+    cases hn : x.neg <;> simp
+  · simp only [hm, if_false] at hfit ⊢
+    cases hn : x.neg
+    · simp only [hn] at hfit ⊢
+      rw [if_pos (by decide)]
+      have hf : ndigits (x.coeff / p + 1) ≤ c.prec := by
+        rw [if_neg (by decide), Int.natAbs_natCast] at hfit; exact hfit
+      rw [addOp_one c hc false _ hf]
+      simp
+    · simp
 
 theorem C09_floor (c : Ctx) (hc : c.WF) (x : Dec) (hx : x.form = .finite) (hexp : x.exp ≤ 0)
     (hfit : ndigits (floorInt x).natAbs ≤ c.prec) :
     let o := floorOp c x
     o.err = .none ∧ o.fl = {} ∧ o.d.form = .finite ∧ o.d.exp = 0 ∧
     (if o.d.neg then -(o.d.coeff : Int) else (o.d.coeff : Int)) = floorInt x := by
-  sorry
+  intro o
+  obtain ⟨m1, m2⟩ := modf_spec x hx hexp
+  have ho : o = if (modf x).2.sign < 0 then addOp c (modf x).1 decOne true else { d := (modf x).1 } := by
+    simp only [o, floorOp, toIntegralSpecials_finite c x hx]
+  rw [ho, m1, m2]
+  unfold floorInt at hfit ⊢
+  simp only [] at hfit ⊢
+  generalize 10 ^ (-x.exp).toNat = p at *
+  by_cases hm : x.coeff % p = 0
+  · simp only [hm, if_true] at hfit ⊢
+    cases hn : x.neg <;> simp
+  · simp only [hm, if_false] at hfit ⊢
+    cases hn : x.neg
+    · simp
+    · simp only [hn] at hfit ⊢
+      rw [if_pos (by decide)]
+      have hf : ndigits (x.coeff / p + 1) ≤ c.prec := by
+        rw [if_neg (by decide), Int.natAbs_neg, Int.natAbs_natCast] at hfit; exact hfit
+      rw [addOp_one c hc true _ hf]
+      simp
 
 /-- an integer-valued x (exp > 0) is returned unchanged by Ceil and Floor -/
 theorem C09_ceil_floor_int (c : Ctx) (x : Dec) (hx : x.form = .finite) (hexp : 0 < x.exp) :
     (ceilOp c x).d = x ∧ (floorOp c x).d = x ∧ (ceilOp c x).fl = {} ∧ (floorOp c x).fl = {} := by
-  sorry
+  have hm : modf x = (x, { form := .finite, neg := x.neg, exp := 0, coeff := 0 }) := by
+    unfold modf; rw [if_pos hexp]
+  simp [ceilOp, floorOp, toIntegralSpecials_finite c x hx, hm, Dec.sign]
 
 example : (quantizeOp { prec := 9, emax := 99, emin := -99, mode := .up } { coeff := 1, exp := -3 } 0).d
     = { coeff := 1, exp := 0 } := by decide
@@ -80,3 +294,12 @@ example : (quantizeOp { prec := 9, emax := 99, emin := 0, mode := .halfUp } { co
     = { coeff := 1, exp := 0 } := by decide
 
 end Apd.Props
+
+#print axioms Apd.Props.C09_quantize_partial
+#print axioms Apd.Props.C09_quantize_syslimit
+#print axioms Apd.Props.C09_rtie_partial
+#print axioms Apd.Props.C09_rtie_syslimit
+#print axioms Apd.Props.C09_rtiv
+#print axioms Apd.Props.C09_ceil
+#print axioms Apd.Props.C09_floor
+#print axioms Apd.Props.C09_ceil_floor_int
